@@ -115,7 +115,7 @@ TopCall(op) ==
 
 \* the frame on top raises `code`: caught by its own handler, or it unwinds
 RaiseInTop(code) ==
-    IF FrameRec(Top).catch
+    IF FrameRec(Top).catch /\ Catchable(code)
     THEN /\ stack' = [stack EXCEPT ![Len(stack)] =
                          [@ EXCEPT !.pc = Len(FrameRec(Top).ops) + 1, !.acc = FrameRec(Top).onerr]]
          /\ UNCHANGED <<mode, exc>>
@@ -220,7 +220,8 @@ Step ==
 Unwind ==
     /\ mode \in {"unwind", "unwind0"}
     /\ LET n == Top.n  k == Len(stack)
-           caught == k > 1 /\ FRec(D, CellRecOf(D, <<stack[k - 1].n[1], stack[k - 1].n[2]>>, stack[k - 1].n[3])).catch IN
+           caught == k > 1 /\ Catchable(exc)
+                     /\ FRec(D, CellRecOf(D, <<stack[k - 1].n[1], stack[k - 1].n[2]>>, stack[k - 1].n[3])).catch IN
        /\ rolled' = IF caught THEN <<>> ELSE Append(rolled, n)
        /\ tgn' = tgn \ {n}
        /\ tge' = {e \in tge : e[1] # n /\ e[2] # n}
@@ -236,7 +237,7 @@ Unwind ==
           THEN /\ stack' = <<>> /\ mode' = "idle" /\ UNCHANGED exc
           ELSE LET caller == stack[k - 1]
                    crec == FRec(D, CellRecOf(D, <<caller.n[1], caller.n[2]>>, caller.n[3])) IN
-               IF crec.catch
+               IF crec.catch /\ Catchable(exc)
                THEN /\ stack' = [Front(stack) EXCEPT ![k - 1] =
                                     [@ EXCEPT !.pc = Len(crec.ops) + 1, !.acc = crec.onerr, !.t = TRUE]]
                     /\ mode' = "run" /\ exc' = 0
